@@ -20,6 +20,33 @@ from . import extract as X
 VERIF = D.VERIF
 
 
+
+def assume_scan(mod):
+    """mechanical scan, on every run, for what is assumed rather than proved: every __CPROVER_assume in the sidecar of
+    the property and in the glue headers it includes, and every callee replaced by its contract"""
+    import re as _re
+    out = []
+    src = getattr(mod, "__file__", None)
+    files = [src] if src else []
+    try:
+        text = open(src, encoding="utf-8").read() if src else ""
+    except OSError:
+        text = ""
+    for h in sorted(set(_re.findall(r"[\"']([\w]+_glue\.h)[\"']", text))):
+        files.append(os.path.join(os.path.dirname(src), h))
+    for f in files:
+        try:
+            lines = open(f, encoding="utf-8").read().split("\n")
+        except OSError:
+            continue
+        hits = [ln.strip() for ln in lines if "__CPROVER_assume" in ln]
+        if hits:
+            out.append(f"assume-scan {os.path.basename(f)}: {len(hits)} __CPROVER_assume site(s) (harness input constraints, lemma premises, assumed ranges of external functions), e.g. " + " | ".join(h[:140] for h in hits[:3]))
+    nrep = len(_re.findall(r"replace=\[", text))
+    if nrep:
+        out.append(f"assume-scan {os.path.basename(src)}: {nrep} unit definition(s) replace callees by their contracts (--replace-call-with-contract); every replaced contract that belongs to /repo is enforced by a unit of its own, ghost-answer stubs of callees outside the extracted set are assumptions and are named in the unit descriptions")
+    return out
+
 def load_known(prop):
     path = os.path.join(VERIF, "known_findings.jsonl")
     known, fixed = [], []
@@ -151,6 +178,7 @@ def main(argv):
     wall = time.time() - t0
     trusted = list(getattr(mod, "TRUSTED", []))
     assumptions = list(getattr(mod, "ASSUMPTIONS", []))
+    assumptions += assume_scan(mod)
     ev = {
         "property_id": prop, "tier": tier, "seed": seed, "level": getattr(mod, "LEVEL", "proof"),
         "coverage": {
